@@ -230,6 +230,8 @@ def build(rng: Random, *, max_len: int = 120, base: str | None = None, ops: tupl
     lines = lines[: 2 * max_len]
     if ops is None and rng.random() < 0.3:
         lines = role_claims(rng, lines, meta)
+    if ops is None and rng.random() < 0.4:
+        lines = gateway_traffic(rng, lines, meta)
     if "zone-update" in chosen:
         lines = lines + zone_update_tail(rng, lines, meta)
     return History(retime(lines), meta)
@@ -269,6 +271,55 @@ def role_claims(rng: Random, lines: list[tuple[str, str]], meta: dict[str, Any])
             n += 1
     meta["ops"].append("role-claims")
     meta["role_claims"] = n
+    return out
+
+
+def gateway_traffic(rng: Random, lines: list[tuple[str, str]], meta: dict[str, Any]) -> list[tuple[str, str]]:
+    """What a gateway (this one in an earlier life, or another one) exchanges with a controller: sync-cycle
+    and clock queries with their replies, and writes (clock, setpoints, modes) with their acknowledgements.
+    Each exchange (request/write, then reply) is inserted at a random place, keeping its own order."""
+    ctls = sorted({q["addrs"][:9] for _, f in lines if (q := split(f)) and q["addrs"][:2] == "01"})
+    if not ctls:
+        return lines
+    ctl = rng.choice(ctls)
+    out = list(lines)
+    n = 0
+    for _ in range(rng.choice((1, 2, 4, 8))):
+        gw = rng.choice(("18:006402", "18:006402", "18:013393", "30:258720"))
+        idx = f"{rng.randrange(0, 12):02X}"
+        kind = rng.choice(("rq1F09", "rq1F09", "rq313F", "w313F", "w313F", "w2309", "w2349", "w2E04", "w1F41", "w000A"))
+        t313 = f"{rng.randrange(60):02X}{rng.randrange(60):02X}{rng.randrange(24):02X}{rng.randrange(1, 29):02X}{rng.randrange(1, 13):02X}07E8"
+        temp = f"{rng.randrange(500, 3500):04X}"
+        if kind == "rq1F09":
+            left = rng.choice((0, 5, 50, 600, 1300, 1855))
+            pair = (f"RQ --- {gw} {ctl} --:------ 1F09 001 00", f"RP --- {ctl} {gw} --:------ 1F09 003 00{left:04X}")
+        elif kind == "rq313F":
+            pair = (f"RQ --- {gw} {ctl} --:------ 313F 001 00", f"RP --- {ctl} {gw} --:------ 313F 009 00FC{t313}")
+        elif kind == "w313F":
+            pair = (f" W --- {gw} {ctl} --:------ 313F 009 0060{t313}", f" I --- {ctl} {gw} --:------ 313F 009 00FC{t313}")
+        elif kind == "w2309":
+            pair = (f" W --- {gw} {ctl} --:------ 2309 003 {idx}{temp}", f" I --- {ctl} {gw} --:------ 2309 003 {idx}{temp}")
+        elif kind == "w2349":
+            body = f"{idx}{temp}{rng.choice(('00', '02'))}FFFFFF"
+            pair = (f" W --- {gw} {ctl} --:------ 2349 007 {body}", f" I --- {ctl} {gw} --:------ 2349 007 {body}")
+        elif kind == "w2E04":
+            body = f"{rng.choice(('00', '01', '02', '03'))}FFFFFFFFFFFF00"
+            pair = (f" W --- {gw} {ctl} --:------ 2E04 008 {body}", f" I --- {ctl} {gw} --:------ 2E04 008 {body}")
+        elif kind == "w1F41":
+            body = f"00{rng.choice(('00', '01'))}{rng.choice(('00', '02'))}FFFFFF"
+            pair = (f" W --- {gw} {ctl} --:------ 1F41 006 {body}", f" I --- {ctl} {gw} --:------ 1F41 006 {body}")
+        else:
+            body = f"{idx}1001F40DAC"
+            pair = (f" W --- {gw} {ctl} --:------ 000A 006 {body}", f" I --- {ctl} {gw} --:------ 000A 006 {body}")
+        if rng.random() < 0.15:
+            pair = pair[:1]  # the reply was not heard
+        at = rng.randrange(len(out) + 1)
+        dtm = out[at - 1][0] if at else (out[0][0] if out else "2024-03-01T12:00:00.000000")
+        for j, frame in enumerate(pair):
+            out.insert(at + j, (dtm, "045 " + frame))
+        n += 1
+    meta["ops"].append("gateway-traffic")
+    meta["gateway_exchanges"] = n
     return out
 
 
